@@ -69,3 +69,20 @@ def classify(outcomes, res):
                 else:
                     res.drift += 1
     res.extra["configs"] = [o["config"] for o in outcomes]
+
+
+ADV = ("adv:alwayseq:mixin", "adv:nevereq:light", "adv:falsy:mixin", "adv:zerolen:light", "adv:tripwire:mixin", "adv:unhashable:mixin", "adv:container:light")
+
+
+def run_adversarial(tier, repo=None, procs=16):
+    repo = repo or core.repo_path()
+    c = dict(name="render-t5", MaxN=5, MaxHide=2) if tier == "quick" else CONFIGS["quick"][0]
+    stats = run_model(c)
+    lines = T.read_lines(stats["lines_path"])
+    step = 3 if tier == "quick" else 1
+    lines = lines[core.seed() % step::step]
+    size = max(50, min(1000, len(lines) // (procs * 4) + 1))
+    jobs = [(lines[i:i + size], i, ADV) for i in range(0, len(lines), size)]
+    with core.pool(render_replay.worker_init, (repo,), procs) as p:
+        parts = p.map(render_replay.replay_chunk_adv, jobs)
+    return {"n": sum(r["n"] for r in parts), "attention": [a for r in parts for a in r["attention"]], "tlc": stats, "config": c, "vectors": len(lines)}
